@@ -22,6 +22,27 @@
 (* equal N,  |cos| < 0.98  <=>  2500 N^2 < 2401 Q1 Q2,  and                *)
 (* |cos_k - cos_obs| < cr/1000  <=>  10^6 (Nk-Nobs)^2 < cr^2 Q1 Q2.        *)
 (*                                                                         *)
+(* SCALE  The instance set is Cells x Scales: the cell (id, k) has the     *)
+(* reciprocal metric gi = G * 0.01 * 4^-k, i.e. the lattice of `id` with   *)
+(* every edge multiplied by the exact power of two 2^k (k = 0: edges of    *)
+(* 2-10 A; Scales reaches from ~0.3-0.6 A to ~1300 A; the long-axis forms  *)
+(* tetL / hexL / ortL put a 4 : 1 ... 5 : 1 axis ratio on top of that).    *)
+(* Every decision of the machine below is a comparison of quantities that  *)
+(* are homogeneous of degree 0 in the metric (cosines, ratios of Q), so    *)
+(* the rings, Aut+, the sorted order, the blocks, the kept list, the       *)
+(* candidates and their classes of (id, k) are those of (id, 0) - which is *)
+(* why the machine runs on the integer form G for all k at once (cs.ks =   *)
+(* the scales a case stands for) - and the orientations obey               *)
+(*   ScaleLaw:  orient(cell scaled by s, g / s) = s . orient(cell, g)      *)
+(*              (same list, same order; likewise BT -> s.BT, cosines       *)
+(*              unchanged, quickorient(g/s, s.BT) = s.quickorient(g, BT))  *)
+(* For s = 2^k this holds in binary64 bit for bit (scaling by a power of   *)
+(* two commutes with + - * / sqrt when nothing over/underflows): the       *)
+(* harness builds the cell (id, k) from the k = 0 cell by exact scaling    *)
+(* and compares bit for bit.  The integer side of the law is checked by    *)
+(* TLC on the metrics m.G, m in ScaleMul (invariant ScaleLaw: rings, Q     *)
+(* ratios, Aut+, sort keys and the 0.98 test do not move).                 *)
+(*                                                                         *)
 (* "Indexes the same" (filter_pairs: the orientation made from the block's *)
 (* first pair with the BT matrix of pair x indexes the 15 probe vectors    *)
 (* HKL0 of an already kept orientation, HKL0 containing the three basis    *)
@@ -38,7 +59,8 @@
 (* of y1, y2) - UbiEquiv.                                                  *)
 (*                                                                         *)
 (* VARIABLES                                                               *)
-(*   cs    : the case [cell (record), r1, r2, tie, bug, t] (t = trace line)*)
+(*   cs    : the case [cell (record), r1, r2, tie, bug, t, ks] (t = trace  *)
+(*           line, ks = the scale exponents the case stands for)           *)
 (*   tab   : tables of the case, computed once in Init: [q1, q2, h1, h2,   *)
 (*           aut] (ring Q values, ring hkl sequences, Aut+(G)); in the     *)
 (*           ghost "cell" states [qs, rings, aut] of the whole cell        *)
@@ -70,9 +92,14 @@
 (* TieRules ("fwd" flat index ascending, "rev" descending) - the property  *)
 (* is checked for both.  MODE = "trace": the sorted order recorded from    *)
 (* the real code (ndjson file IOEnv.TRACE_FILE, one line per ring pair:    *)
-(* {cell, r1, r2, order:[[ha,hb],..]}) is validated (ValidOrder: it is a   *)
-(* permutation of ring1 x ring2 and N never decreases) and the model is    *)
-(* run on it; the harness compares the kept list, order included.          *)
+(* {cell, r1, r2, ks, order:[[ha,hb],..]}, ks = the scales of the cell at   *)
+(* which exactly this order was recorded) is validated (ValidOrder: it is  *)
+(* a permutation of ring1 x ring2 and N never decreases) and the model is  *)
+(* run on it; the harness compares the kept list, order included.  An      *)
+(* order that is not valid ends in pc = "badtrace": the code handed its    *)
+(* filter_pairs something that is not the cosine table of the ring pair -  *)
+(* a conformance violation of the tree (the harness then judges the        *)
+(* property without the machine).                                          *)
 (*                                                                         *)
 (* BUG  cs.bug = TRUE models the block ends as written at the pinned       *)
 (* commit, `inds = [...] + [len(c2as) - 1]`: the last pair of the last     *)
@@ -93,14 +120,16 @@
 (*               class; classes are disjoint and pairwise inequivalent     *)
 (*   CellLaws    Aut+(G) is a group of the expected order, nothing missed  *)
 (*               by the box; ring boxes complete                           *)
+(*   ScaleLaw    rings, Aut+, sort keys, |cos| < 0.98 of m.G = those of G  *)
 (*   CacheFresh  an entry handed out by getanglehkls was computed under    *)
 (*               the ringtol in force                                      *)
 (*                                                                         *)
-(* BOUNDS  Cells (18 named lattices: cubic P/I/F, tetragonal P/I and a     *)
+(* BOUNDS  Cells (21 named lattices: cubic P/I/F, tetragonal P/I and a     *)
 (* pseudo-symmetric one, hexagonal P/R, orthorhombic P/C/F and a pseudo-   *)
 (* symmetric one, monoclinic P/C, rhombohedral acute/obtuse, two           *)
-(* triclinic), first NR rings, ordered ring pairs (PairSel), TieRules,     *)
-(* BugEnds, CRanges, Rots; chosen in the .cfg files.                       *)
+(* triclinic, long-axis tetragonal / hexagonal / orthorhombic) x Scales    *)
+(* (exponents k, edges x 2^k), first NR rings, ordered ring pairs          *)
+(* (PairSel), TieRules, BugEnds, CRanges, Rots; chosen in the .cfg files.  *)
 (***************************************************************************)
 EXTENDS ExactLA, Json, IOUtils, SequencesExt
 
@@ -111,7 +140,8 @@ CONSTANTS MODE,        \* "rule" | "trace"
           TieRules,    \* subset of {"fwd", "rev"}
           BugEnds,     \* subset of BOOLEAN
           CRanges,     \* crange values * 1000 (0 = nearest mode)
-          Rots         \* set of <<ax, ay, az>> angle triples: U = Rx.Ry.Rz
+          Rots,        \* set of <<ax, ay, az>> angle triples: U = Rx.Ry.Rz
+          Scales       \* set of integers k: the cell with every edge multiplied by 2^k (gi = G * 0.01 * 4^-k)
 
 (* ---------------- named lattices -------------------------------------------------------- *)
 Sym(a, b, c, d, e, f) == << <<a, f, e>>, <<f, b, d>>, <<e, d, c>> >>    \* 11 22 33 23 13 12
@@ -134,8 +164,12 @@ CellsAll == {
    C("rhoP",  Sym(3,3,3,1,1,1), "P", 2, 6),
    C("rhoO",  Sym(4,4,4,-1,-1,-1), "P", 2, 6),
    C("triP",  Sym(4,5,7,2,1,1), "P", 2, 1),
-   C("triQ",  Sym(3,4,5,1,-1,1), "P", 2, 1) }
-Cells_q == { c \in CellsAll : c.id \in {"cubF", "hexP", "monP", "triP"} }
+   C("triQ",  Sym(3,4,5,1,-1,1), "P", 2, 1),
+   \* long-axis forms (axis ratio 4, 4.9, 5): low order rings are the (00l) / (h00) row, one short reciprocal axis
+   C("tetL",  Sym(16,16,1,0,0,0), "P", 4, 8),        \* c = 4 a ; Q(004) = Q(100)
+   C("hexL",  Sym(8,8,1,0,0,4), "P", 3, 12),         \* c = 2.45 a sqrt(4) ; Q(003) = Q(101)
+   C("ortL",  Sym(1,9,25,0,0,0), "P", 3, 4) }        \* a = 3 b = 5 c ; Q(300) = Q(010)
+Cells_q == { c \in CellsAll : c.id \in {"cubF", "hexP", "monP", "triP", "monC", "rhoP", "ortPs", "tetL"} }
 Cells_t == CellsAll
 Cells_tri == { c \in CellsAll : c.id \in {"triP", "triQ", "monP"} }
 CellById(id) == CHOOSE c \in CellsAll : c.id = id
@@ -155,6 +189,12 @@ QF(G, u, v) == Dot(u, MV(G, v))
 PD(G) == G[1][1] > 0 /\ G[1][1]*G[2][2] - G[1][2]*G[1][2] > 0 /\ Det(G) > 0
 AdjD(G) == LET A == Adj(G) IN <<A[1][1], A[2][2], A[3][3]>>
 ASSUME \A c \in CellsAll : IsSym(c.G) /\ PD(c.G)
+ASSUME Scales \subseteq -8..12 /\ 0 \in Scales
+ScaleSeq == SetToSortSeq(Scales, <)
+\* integer multiples of the metric on which TLC checks the integer side of the scale law (m.G = the cell with
+\* edges divided by sqrt(m); 4 and 16 are members of the harness' family, 3 is not a square: any m will do)
+ScaleMul == {3, 4, 16}
+ScaledCell(c, m) == [c EXCEPT !.G = M2T(MScale(m, c.G))]
 
 Absent(cen, h) ==
   CASE cen = "P" -> FALSE
